@@ -1,2 +1,5 @@
 //! Code shared by the per-property conformance harnesses.
+pub mod real;
+pub mod sched;
+pub mod shell;
 pub mod util;
